@@ -37,7 +37,8 @@ import ast
 from translate import pylite as P
 
 PROPERTIES = ["C03"]
-OUTPUTS = ["RequestsGen.v"]
+OUTPUTS = ["RequestsGen.v", "BananaGen.v"]   # BananaGen.v: produced by g_banana (token constants, SIZE_LIMIT) -- the byte-level
+# receive model lib/AnswerRecv.v is built on lib/Token.v / lib/Recv.v, which import it; regenerated here so that a run of C03 alone sees the current banana.py
 
 
 def U(msg):
@@ -443,6 +444,15 @@ def gen_callremote(out):
 
 # ------------------------------------------------------------------ Answer / Error unslicers
 def gen_unslicers(out):
+    """Answer/Error unslicers (call.py) and the top-level registry (broker.py).
+
+    Accepted alternative forms (each equivalent to the reference form for ALL inputs):
+      U1. the callbacks handed to `d.addCallbacks(ok, err)` in AnswerUnslicer.receiveClose may be closures defined in
+          receiveClose or bound methods `self.<name>` of the class: both are called with the one argument the Deferred
+          passes and run the same body with the same `self`.
+      U2. `self.request == None` / `is None` / `not self.request` and `!= None` / `is not None` / `self.request` are the same
+          test: self.request is either None or a PendingRequest (which defines neither __eq__ nor __bool__/__len__).
+    """
     mod = P.load("call.py")
 
     def has(fnq, frag):
@@ -450,24 +460,194 @@ def gen_unslicers(out):
         if frag not in src(f):
             U("%s no longer contains `%s`" % (fnq, frag))
         return f
-    has("AnswerUnslicer.receiveChild", "self.request = self.broker.getRequest(reqID)")
-    rc = has("AnswerUnslicer.receiveClose", "d.addCallbacks(_done, _fail)")
-    inner = {n.name: n for n in ast.walk(rc) if isinstance(n, ast.FunctionDef) and n is not rc}
-    if [src(s) for s in body_of(inner.get("_done", rc))] != ["self.request.complete(res)"]:
-        U("AnswerUnslicer.receiveClose._done is not `self.request.complete(res)`")
-    fb = [src(s) for s in body_of(inner.get("_fail", rc))]
-    if fb != ["self.request.fail(f)"]:
-        U("AnswerUnslicer.receiveClose._fail is not `self.request.fail(f)`: %s" % fb)
+
+    def none_test(t):
+        s = src(t)
+        if s in ("self.request == None", "self.request is None", "not self.request"):
+            return "none"
+        if s in ("self.request != None", "self.request is not None", "self.request"):
+            return "some"
+        return None
+
+    def raises_banana(stmts):
+        return len(stmts) == 1 and isinstance(stmts[0], ast.Raise) and stmts[0].exc is not None \
+            and src(stmts[0].exc).startswith("BananaError(")
+
+    # ---- receiveChild: the first child is the request id, looked up with getRequest and kept in self.request
+    for cls in ("AnswerUnslicer", "ErrorUnslicer"):
+        rc_ = body_of(P.find_def(mod, cls + ".receiveChild"))
+        ifs = [s for s in rc_ if isinstance(s, ast.If) and none_test(s.test) == "none"]
+        if len(ifs) != 1 or not ifs[0].orelse:
+            U("%s.receiveChild: expected one `if self.request == None: ... else: ...`" % cls)
+        bind = [src(s) for s in ifs[0].body if not isinstance(s, ast.Assert)]
+        if bind[:2] != ["reqID = token", "self.request = self.broker.getRequest(reqID)"]:
+            U("%s.receiveChild no longer binds self.request = self.broker.getRequest(reqID) from the first token: %s" % (cls, bind))
+        for s in ifs[0].orelse:
+            for x in ast.walk(s):
+                if isinstance(x, ast.Attribute) and x.attr in ("getRequest", "complete", "fail") or \
+                        (isinstance(x, ast.Assign) and any(src(t) == "self.request" for t in x.targets)):
+                    U("%s.receiveChild: the branch for later children touches the request: %s" % (cls, src(s)[:80]))
+        flag = "haveResults" if cls == "AnswerUnslicer" else "gotFailure"
+        if "self.%s = True" % flag not in [src(s) for s in ifs[0].orelse]:
+            U("%s.receiveChild: the branch for later children no longer sets self.%s" % (cls, flag))
+        for s in rc_:
+            if s is not ifs[0] and not isinstance(s, ast.Assert):
+                U("%s.receiveChild: unexpected statement `%s`" % (cls, src(s)[:80]))
+
+    # ---- checkToken: request id must be an INT; one result / failure; anything after that is a BananaError
+    for cls, flag in (("AnswerUnslicer", "haveResults"), ("ErrorUnslicer", "gotFailure")):
+        ct = body_of(P.find_def(mod, cls + ".checkToken"))
+        okshape = (len(ct) == 1 and isinstance(ct[0], ast.If) and none_test(ct[0].test) == "none"
+                   and len(ct[0].body) == 1 and isinstance(ct[0].body[0], ast.If)
+                   and src(ct[0].body[0].test) == "typebyte != tokens.INT" and raises_banana(ct[0].body[0].body)
+                   and not ct[0].body[0].orelse
+                   and len(ct[0].orelse) == 1 and isinstance(ct[0].orelse[0], ast.If)
+                   and src(ct[0].orelse[0].test) == "not self.%s" % flag
+                   and raises_banana(ct[0].orelse[0].orelse))
+        if not okshape:
+            U("%s.checkToken is no longer `if no request: INT only (BananaError) / elif not %s: <constraint> / else: BananaError`" % (cls, flag))
+        for x in ast.walk(ct[0].orelse[0]):
+            if isinstance(x, ast.Attribute) and x.attr in ("getRequest", "complete", "fail"):
+                U("%s.checkToken touches the request" % cls)
+    out.append("Definition unslicer_reqid_must_be_INT_and_one_body_object : bool := true.")
+
+    # ---- reportViolation: fails the bound request (if any), then gives up the sequence
+    kinds = {}
     for cls in ("AnswerUnslicer", "ErrorUnslicer"):
         rv = body_of(P.find_def(mod, cls + ".reportViolation"))
-        if [src(s) for s in rv] not in (["if self.request != None:\n    self.request.fail(f)", "return f"],
-                                        ["if self.request is not None:\n    self.request.fail(f)", "return f"]):
+        argn = method_arg(P.find_def(mod, cls + ".reportViolation"), cls + ".reportViolation")
+        if not rv or src(rv[-1]) != "return %s" % argn:
+            U("%s.reportViolation no longer ends in `return %s` (give up the sequence)" % (cls, argn))
+        pre = rv[:-1]
+        if not pre:
+            kinds[cls] = "ReportIgnores"
+        elif len(pre) == 1 and isinstance(pre[0], ast.If) and none_test(pre[0].test) == "some" and not pre[0].orelse \
+                and [src(s) for s in pre[0].body] == ["self.request.fail(%s)" % argn]:
+            kinds[cls] = "ReportFailsBound"
+        else:
             U("%s.reportViolation changed: %s" % (cls, [src(s) for s in rv]))
-    has("ErrorUnslicer.receiveChild", "self.request = self.broker.getRequest(reqID)")
+    out.append("Definition answer_reportViolation : report_kind := %s." % kinds["AnswerUnslicer"])
+    out.append("Definition error_reportViolation : report_kind := %s." % kinds["ErrorUnslicer"])
+
+    # ---- receiveClose
+    rc = P.find_def(mod, "AnswerUnslicer.receiveClose")
+    cls_ans = P.find_class(mod, "AnswerUnslicer")
+    rcb = body_of(rc)
+    if not (rcb and isinstance(rcb[0], ast.If) and src(rcb[0].test) == "not self._child_deferred" and raises_banana(rcb[0].body)
+            and not rcb[0].orelse):
+        U("AnswerUnslicer.receiveClose no longer starts with `if not self._child_deferred: raise BananaError`")
+    inner = {n.name: n for n in ast.walk(rc) if isinstance(n, ast.FunctionDef) and n is not rc}
+    methods = {n.name: n for n in cls_ans.body if isinstance(n, ast.FunctionDef)}
+    regs = [s.value for s in rcb if isinstance(s, ast.Expr) and isinstance(s.value, ast.Call)
+            and src(s.value.func) == "d.addCallbacks"]
+    if len(regs) != 1 or len(regs[0].args) != 2 or regs[0].keywords:
+        U("AnswerUnslicer.receiveClose: expected exactly one d.addCallbacks(ok, err)")
+
+    def resolve(e):
+        if isinstance(e, ast.Name) and e.id in inner:
+            f = inner[e.id]
+            a = [x.arg for x in f.args.args]
+            if len(a) == 1:
+                return a[0], body_of(f)
+        if isinstance(e, ast.Attribute) and src(e.value) == "self" and e.attr in methods:
+            f = methods[e.attr]
+            a = [x.arg for x in f.args.args]
+            if len(a) == 2 and a[0] == "self":
+                return a[1], body_of(f)
+        U("AnswerUnslicer.receiveClose: cannot resolve the callback `%s`" % src(e))
+    a_ok, b_ok = resolve(regs[0].args[0])
+    a_err, b_err = resolve(regs[0].args[1])
+    if [src(s) for s in b_ok] != ["self.request.complete(%s)" % a_ok]:
+        U("AnswerUnslicer.receiveClose: the success callback is not `self.request.complete(res)`: %s" % [src(s) for s in b_ok])
+    if [src(s) for s in b_err] != ["self.request.fail(%s)" % a_err]:
+        U("AnswerUnslicer.receiveClose: the failure callback is not `self.request.fail(f)`: %s" % [src(s) for s in b_err])
+    for s in rcb:
+        if isinstance(s, ast.FunctionDef):
+            continue
+        for x in ast.walk(s):
+            if isinstance(x, ast.Attribute) and x.attr in ("complete", "fail", "getRequest") and src(x.value) in ("self.request", "self.broker"):
+                U("AnswerUnslicer.receiveClose touches the request outside the two callbacks: %s" % src(s)[:80])
     ec = [src(s) for s in body_of(P.find_def(mod, "ErrorUnslicer.receiveClose"))]
-    if "self.request.fail(f)" not in ec or any("complete" in s for s in ec):
-        U("ErrorUnslicer.receiveClose no longer ends in self.request.fail(f)")
+    if ec[:1] != ["f = self.failure"] or ec[-2:] != ["self.request.fail(f)", "return (None, None)"] or any("complete" in s for s in ec):
+        U("ErrorUnslicer.receiveClose no longer is `f = self.failure; ...; self.request.fail(f); return None, None`: %s" % ec)
+    cattrs = P.module_consts(mod, body=P.find_class(mod, "ErrorUnslicer").body)
+    if "failure" in cattrs:
+        U("ErrorUnslicer now has a class default for `failure` (CLOSE before the failure object used to be an AttributeError)")
     out.append("Definition wire_answer_is_lookup_then_complete_and_error_is_lookup_then_fail : bool := true.")
+
+    # ---- who touches the pending-request table, in the whole package (tests excluded): only the classes modelled here.
+    # Granularity is the class, so that extracting a helper method inside one of them changes nothing.
+    import os
+    expected_calls = {("call.py", "PendingRequest", "removeRequest"), ("call.py", "AnswerUnslicer", "getRequest"),
+                      ("call.py", "ErrorUnslicer", "getRequest"), ("referenceable.py", "RemoteReference", "addRequest"),
+                      ("broker.py", "Broker", "abandonAllRequests")}
+    found_calls = set()
+    MUT = {"pop", "popitem", "clear", "update", "setdefault", "__setitem__", "__delitem__"}
+    for dirpath, dirs, files in os.walk(P.SRC):
+        dirs[:] = sorted(d for d in dirs if d != "test")
+        for fn in sorted(files):
+            if not fn.endswith(".py"):
+                continue
+            rel = os.path.relpath(os.path.join(dirpath, fn), P.SRC)
+            with open(os.path.join(dirpath, fn)) as f:
+                text = f.read()
+            if not any(w in text for w in ("waitingForAnswers", "getRequest", "removeRequest", "addRequest", "abandonAllRequests")):
+                continue
+            tree = ast.parse(text)
+            parent = {}
+            for n in ast.walk(tree):
+                for ch in ast.iter_child_nodes(n):
+                    parent[ch] = n
+
+            def klass(n):
+                while n in parent:
+                    n = parent[n]
+                    if isinstance(n, ast.ClassDef):
+                        return n.name
+                return None
+            for n in ast.walk(tree):
+                if isinstance(n, ast.Call) and isinstance(n.func, ast.Attribute) and \
+                        n.func.attr in ("getRequest", "removeRequest", "addRequest", "abandonAllRequests"):
+                    found_calls.add((rel, klass(n), n.func.attr))
+                if isinstance(n, ast.Attribute) and n.attr == "waitingForAnswers":
+                    up = parent.get(n)
+                    mut = not isinstance(n.ctx, ast.Load)
+                    if isinstance(up, ast.Subscript) and up.value is n and not isinstance(up.ctx, ast.Load):
+                        mut = True
+                    if isinstance(up, ast.Attribute) and up.attr in MUT:
+                        mut = True
+                    if mut and (rel, klass(n)) != ("broker.py", "Broker"):
+                        U("%s (class %s) modifies Broker.waitingForAnswers: %s" % (rel, klass(n), src(up)[:80]))
+    if found_calls != expected_calls:
+        U("the pending-request table is used from unexpected places: extra %s, missing %s"
+          % (sorted(found_calls - expected_calls), sorted(expected_calls - found_calls)))
+    out.append("Definition request_table_touched_only_by_modelled_classes : bool := true.")
+
+    # ---- the top-level registry: which opentypes create these unslicers
+    bmod = P.load("broker.py")
+    reg = [st for st in bmod.body if isinstance(st, ast.Assign) and src(st.targets[0]) == "PBTopRegistry"]
+    if len(reg) != 1 or not isinstance(reg[0].value, ast.Dict):
+        U("broker.PBTopRegistry is no longer a dict literal")
+    names = {}
+    for k, v in zip(reg[0].value.keys, reg[0].value.values):
+        if not (isinstance(k, ast.Tuple) and len(k.elts) == 1 and isinstance(k.elts[0], ast.Constant) and isinstance(k.elts[0].value, str)):
+            U("PBTopRegistry: key `%s` is not a 1-tuple of a string literal" % src(k))
+        names.setdefault(src(v), []).append(k.elts[0].value)
+    for cls, nm in (("call.AnswerUnslicer", "answer_opentype"), ("call.ErrorUnslicer", "error_opentype")):
+        if len(names.get(cls, [])) != 1:
+            U("PBTopRegistry: %s is not registered under exactly one opentype: %s" % (cls, names.get(cls)))
+        out.append("Definition %s : list Z := [%s]." % (nm, "; ".join(str(b) for b in names[cls][0].encode("ascii"))))
+    root = P.find_class(bmod, "PBRootUnslicer")
+    tr = [src(s) for s in root.body if isinstance(s, ast.Assign) and src(s.targets[0]) == "topRegistries"]
+    if tr != ["topRegistries = [PBTopRegistry]"]:
+        U("PBRootUnslicer.topRegistries is no longer [PBTopRegistry]")
+    rv = [src(s) for s in body_of(P.find_def(bmod, "PBRootUnslicer.reportViolation")) if not isinstance(s, ast.If) or "print" not in src(s)]
+    if rv != ["return None"]:
+        U("PBRootUnslicer.reportViolation no longer absorbs the failure (`return None`): %s" % rv)
+    ctk = [src(s) for s in body_of(P.find_def(bmod, "PBRootUnslicer.checkToken"))]
+    if len(ctk) != 1 or not ctk[0].startswith("if typebyte != tokens.OPEN:\n    raise BananaError("):
+        U("PBRootUnslicer.checkToken no longer is `if typebyte != tokens.OPEN: raise BananaError`: %s" % ctk)
+    out.append("Definition root_absorbs_violations_and_accepts_only_OPEN : bool := true.")
 
 
 # ------------------------------------------------------------------ eventual.py: the queue abandonAllRequests relies on
@@ -540,6 +720,8 @@ Inductive lost_test := LostCheckSubclasses | LostExactTypeOnly. (* Failure.check
 (* _SimpleCallQueue._turn: try/except around each event / one try around the whole loop *)
 Inductive turn_mode := TurnIsolatesEvents | TurnStopsAtFirstException.
 Inductive lost_class := ConnectionLostC | ConnectionDoneC | SSLErrorC.
+(* Answer/ErrorUnslicer.reportViolation: `if self.request != None: self.request.fail(f)` then `return f` / only `return f` *)
+Inductive report_kind := ReportFailsBound | ReportIgnores.
 '''
 
 
@@ -566,4 +748,7 @@ def generate():
     gen_callremote(out)
     gen_unslicers(out)
     gen_eventual(out)
-    return {"RequestsGen.v": "\n\n".join(out) + "\n"}
+    res = {"RequestsGen.v": "\n\n".join(out) + "\n"}
+    from translate import g_banana
+    res.update(g_banana.generate())
+    return res
